@@ -6,6 +6,7 @@ import MlModel.Lemmas.MergedChain
 import MlModel.Lemmas.Shard
 import MlModel.Lemmas.RoundRobin
 import MlModel.Lemmas.ShardRecv
+import MlModel.Lemmas.ShardResumeBridge
 /-!
 # C09 — Sharding partitions a data source exactly; merged sequences = concatenation
 
@@ -422,6 +423,24 @@ theorem C09_mux_from_state_length (recvs : List Source) (states : List ShardConf
         | error e => rw [h2] at hx; simp at hx
         | ok y => exact ih ss (by simpa using h) y h2
 
+/-- **Interface with C10.**  C10's theorems (`C10_source`, `C10_refinement_seq`, …) are stated over the
+source model of `Model/Resume.lean` (naturals, intervals only), whose `from_state` / `restore` has no
+receiver.  On every chain of shard calls whose intervals are never inverted (offsets inside the shards —
+the domain of both properties) that model computes exactly the interval of the C09 model, and the source is
+a receiver in the sense of `Reach`: so restoring through the running iterator, a worker shard or a sibling
+(`C09_from_state_receiver_independent`) is restoring through the fresh root C10 reasons about. -/
+theorem C09_resume_source_model_agrees (n : Nat) (ie : Bool) (chain : Resume.Chain) (s : Resume.Src)
+    (hs : chain.foldlM Resume.Src.shard (Resume.Src.root n) = .ok s)
+    (hmono : ∀ pre s', pre <+: chain → pre.foldlM Resume.Src.shard (Resume.Src.root n) = .ok s' →
+      s'.start ≤ s'.stop) :
+    ∃ r, Reach n ie r ∧ (Source.root n ie).shardChain (chain.map cfgTriple) = .ok r ∧
+      (s.start : Int) = r.ds.start ∧ (s.stop : Int) = r.ds.end := by
+  obtain ⟨d, hd, h1, h2⟩ := chain_sim chain (Resume.Src.root n) s (DS.root n) (root_sim n) hs hmono
+  have hc : (Source.root n ie).shardChain (chain.map cfgTriple) = .ok ⟨d, ie⟩ := by
+    show (⟨DS.root n, ie⟩ : Source).shardChain _ = _
+    rw [Source.shardChain_lift, hd]; rfl
+  exact ⟨⟨d, ie⟩, (C09_receiver_iff_shard_chain n ie _).2 ⟨_, hc⟩, hc, h1, h2⟩
+
 /-! ## Non-vacuity and sanity examples (tests, `decide`d) -/
 
 example : (DS.root 7).WF := by decide
@@ -460,5 +479,20 @@ example : ((⟨(DS.root 10).shardCore 1 2 0, false⟩ : Source).fromState (.chil
     (fun s => s.ds.elems (List.range 10)) = some [7, 8, 9] := by decide
 example : (SeqIter.nexts (List.range 10) 2 (⟨(DS.root 10).shardCore 1 2 0, false⟩ : Source).iterate).2.state
     = .child 1 2 2 .dflt := by decide
+
+/-- the hypothesis of `C09_resume_source_model_agrees` holds for shard 1/2 (offset 1) of 10 elements -/
+example : ∀ pre s', pre <+: [(⟨1, 2, 1⟩ : Resume.Cfg)] →
+    pre.foldlM Resume.Src.shard (Resume.Src.root 10) = .ok s' → s'.start ≤ s'.stop := by
+  intro pre s' hp hf
+  rcases List.prefix_cons_iff.1 hp with rfl | ⟨t, rfl, ht⟩
+  · simp only [List.foldlM_nil, pure, Except.pure, Except.ok.injEq] at hf
+    subst hf; decide
+  · have : t = [] := List.prefix_nil.1 ht
+    subst this
+    have : [(⟨1, 2, 1⟩ : Resume.Cfg)].foldlM Resume.Src.shard (Resume.Src.root 10)
+        = .ok ⟨[Resume.Cfg.dflt, ⟨1, 2, 1⟩], 6, 10⟩ := rfl
+    rw [this] at hf
+    simp only [Except.ok.injEq] at hf
+    subst hf; decide
 
 end MlModel.C09
